@@ -1,6 +1,11 @@
 package zzverif
 
-import "io"
+import (
+	"io"
+	"strconv"
+)
+
+func shortName(k int) string { return "shortRead" + strconv.Itoa(k) }
 
 // Buf is the in-memory io.Writer / io.Reader used by the codec harnesses. It is ordinary Go: the symbolic
 // engine interprets it like any other code. Limit >= 0 cuts the readable prefix (C14); it may be symbolic,
@@ -10,6 +15,12 @@ type Buf struct {
 	R      int
 	Limit  int
 	Writes int
+	// Short: the io.Reader contract allows a Read to return fewer bytes than asked for without an error. While
+	// Short > 0, every Read of more than one byte is a choice between all available bytes and a single byte (the
+	// engine explores both; natively the recorded choices are replayed); a short read uses up one unit. Code that
+	// uses a bare Read where it needs io.ReadFull is exposed by a budget of one.
+	Short int
+	Reads int
 }
 
 func NewBuf() *Buf { return &Buf{Limit: -1} }
@@ -41,6 +52,13 @@ func (b *Buf) Read(p []byte) (int, error) {
 		n = len(p)
 	}
 	n = Concrete(n)
+	if b.Short > 0 && n > 1 {
+		b.Reads++
+		if Choose(shortName(b.Reads), 2) == 1 {
+			n = 1
+			b.Short--
+		}
+	}
 	copy(p[:n], b.B[b.R:b.R+n])
 	b.R += n
 	return n, nil
